@@ -11,6 +11,13 @@
    or skip one token (storage latched); on `notenough` stop. The whole rest of the stream is visible (Cursor / low mark
    >= maximal message).
 
+   SCALE NOTE: garbage runs of the token model are at most MaxG tokens, i.e. never longer than a maximal message. The real
+   iterator carries byte counters (bytes_skipped, bytes_processed) across next() calls; behaviour that depends on their
+   magnitude (e.g. a run of > 65551 = 16 + 65535 garbage bytes before the first message) is outside this abstraction and is
+   covered on the real code by the driver's scale classes (harness/src/bin/c01.rs: one run of 65551 / 65552 / 65553 /
+   131072 / 200000 bytes at every position, both framings, partial markers at the 64 KiB boundaries, every front-end),
+   judged by the same contract FramingTrace.tla.
+
    Properties (TLC, all streams within the bounds): when the iterator stops, the yielded messages are exactly the
    stream's messages, in order, numbered from `start`; skipped = garbage tokens (a trailing run shorter than a minimal
    message may stay unconsumed); off <= Len(stream).
